@@ -71,6 +71,13 @@ static uint32_t eslDSQDATA_MAGIC_V1SWAP = 0xb1d1d3c4; //  ... as above, but byte
  *# 1. <ESL_DSQDATA>: reading dsqdata format
  *****************************************************************/
 
+#ifdef EASEL_VERIF
+/* verification hook H3: run-time override of chunk limits and unpacker count (0 = default) */
+int esl_verif_dsqdata_maxseq    = 0;
+int esl_verif_dsqdata_maxpacket = 0;
+int esl_verif_dsqdata_unpackers = 0;
+#endif
+
 /* Function:  esl_dsqdata_Open()
  * Synopsis:  Open a digital sequence database for reading
  * Incept:    SRE, Wed Jan 20 09:50:00 2016 [Amtrak 2150, NYP-BOS]
@@ -193,6 +200,11 @@ esl_dsqdata_Open(ESL_ALPHABET **byp_abc, char *basename, int nconsumers, ESL_DSQ
 
   dd->nconsumers      = nconsumers;
   dd->n_unpackers     = eslDSQDATA_UNPACKERS;      // we'll want to allow tuning this too
+#ifdef EASEL_VERIF
+  if (esl_verif_dsqdata_maxseq    > 0) dd->chunk_maxseq    = esl_verif_dsqdata_maxseq;
+  if (esl_verif_dsqdata_maxpacket > 0) dd->chunk_maxpacket = esl_verif_dsqdata_maxpacket;
+  if (esl_verif_dsqdata_unpackers > 0) dd->n_unpackers     = esl_verif_dsqdata_unpackers;
+#endif
   dd->errbuf[0]       = '\0';
 
   /* Open the four files.
